@@ -146,59 +146,43 @@ Proof.
   intros W. unfold haves. rewrite filter_In, (In_anc U r h W), andb_true_iff, memb_In. tauto.
 Qed.
 
-Definition behind_have (U : univ) (vis : list revid) (r a : revid) : Prop :=
-  exists h, reach (ug U) h r /\ srcp U h = true /\ In h vis /\ reach (ug U) a h.
+Lemma missing_walk_eq U vis r : missing_walk U vis r = missing_full U vis r.
+Proof. reflexivity. Qed.
+
+Lemma missing_eq U fg vis r : missing U fg vis r = missing_full U vis r.
+Proof. unfold missing. destruct fg; reflexivity. Qed.
 
 Lemma missing_walk_spec U vis r a : wf_dag (ug U) = true ->
-  (In a (missing_walk U vis r) <-> reach (ug U) a r /\ srcp U a = true /\ ~ behind_have U vis r a).
-Proof.
-  intros W. unfold missing_walk, behind_have.
-  rewrite filter_In, (In_anc U r a W), andb_true_iff, negb_true_iff, memb_false.
-  rewrite (ancestors_spec _ (haves U vis r) a W).
-  split.
-  - intros [R [S N]]. split; [exact R|]. split; [exact S|]. intros [h [H1 [H2 [H3 H4]]]].
-    apply N. exists h. split; [apply (In_haves U vis r h W); tauto | exact H4].
-  - intros [R [S N]]. split; [exact R|]. split; [exact S|]. intros [h [Hh Rah]].
-    apply (In_haves U vis r h W) in Hh. apply N. exists h. tauto.
-Qed.
+  (In a (missing_walk U vis r) <-> reach (ug U) a r /\ srcp U a = true /\ ~ In a vis).
+Proof. rewrite missing_walk_eq. apply missing_full_spec. Qed.
 
-Lemma walk_incl_full U vis r a : wf_dag (ug U) = true ->
-  In a (missing_walk U vis r) -> In a (missing_full U vis r).
-Proof.
-  intros W H. apply (missing_walk_spec U vis r a W) in H. destruct H as [R [S N]].
-  apply (missing_full_spec U vis r a W). split; [exact R|]. split; [exact S|].
-  intros Hv. apply N. exists a. split; [exact R|]. split; [exact S|]. split; [exact Hv | apply reach_refl].
-Qed.
-
-Theorem walk_eq_full_closed U vis r a : wf_dag (ug U) = true -> closedb U vis = true ->
+Theorem walk_eq_full U vis r a :
   (In a (missing_walk U vis r) <-> In a (missing_full U vis r)).
-Proof.
-  intros W C. split; [apply walk_incl_full; exact W|].
-  intros H. apply (missing_full_spec U vis r a W) in H. destruct H as [R [S N]].
-  apply (missing_walk_spec U vis r a W). split; [exact R|]. split; [exact S|].
-  intros [h [_ [_ [Hv Rah]]]]. apply N. apply (closed_reach U vis C a h Rah Hv S).
-Qed.
+Proof. rewrite missing_walk_eq. tauto. Qed.
+
+Lemma missing_spec U fg vis r a : wf_dag (ug U) = true ->
+  (In a (missing U fg vis r) <-> reach (ug U) a r /\ srcp U a = true /\ ~ In a vis).
+Proof. rewrite missing_eq. apply missing_full_spec. Qed.
 
 Lemma missing_not_vis U fg vis r a : wf_dag (ug U) = true ->
   In a (missing U fg vis r) -> reach (ug U) a r /\ srcp U a = true /\ ~ In a vis.
-Proof.
-  intros W H. unfold missing in H. destruct fg.
-  - apply (missing_full_spec U vis r a W). exact H.
-  - apply (missing_full_spec U vis r a W). apply walk_incl_full; assumption.
-Qed.
+Proof. intros W H. apply (missing_spec U fg vis r a W). exact H. Qed.
 
-(* with find_ghosts, or into a closed target, an existing ancestor of r that is not
-   requested is already visible *)
+(* an existing ancestor of r that is not requested is already visible *)
 Lemma not_missing_vis U fg vis r a : wf_dag (ug U) = true ->
-  fg = true \/ closedb U vis = true ->
   reach (ug U) a r -> srcp U a = true -> ~ In a (missing U fg vis r) -> In a vis.
 Proof.
-  intros W G R S N.
-  assert (Nf : ~ In a (missing_full U vis r)).
-  { unfold missing in N. destruct fg; [exact N|]. destruct G as [G|C]; [discriminate|].
-    intros Hf. apply N. apply (walk_eq_full_closed U vis r a W C). exact Hf. }
-  destruct (memb a vis) eqn:E; [apply memb_In; exact E|]. exfalso. apply Nf.
-  apply (missing_full_spec U vis r a W). split; [exact R|]. split; [exact S|]. apply memb_false. exact E.
+  intros W R S N.
+  destruct (memb a vis) eqn:E; [apply memb_In; exact E|]. exfalso. apply N.
+  apply (missing_spec U fg vis r a W). split; [exact R|]. split; [exact S|]. apply memb_false. exact E.
+Qed.
+
+Lemma missing_nil U fg vis r : wf_dag (ug U) = true ->
+  (forall x, reach (ug U) x r -> srcp U x = true -> In x vis) -> missing U fg vis r = [].
+Proof.
+  intros W H. rewrite missing_eq. unfold missing_full. apply filter_nil. intros x Hx.
+  apply (In_anc U r x W) in Hx. destruct (srcp U x) eqn:Sx; [|reflexivity]. cbn [andb].
+  apply negb_false_iff. apply memb_In. apply H; assumption.
 Qed.
 
 Lemma In_boundary U M b :
@@ -208,11 +192,10 @@ Proof.
 Qed.
 
 Lemma boundary_in_vis U fg vis r b : wf_dag (ug U) = true ->
-  fg = true \/ closedb U vis = true ->
   In b (boundary U (missing U fg vis r)) -> In b vis.
 Proof.
-  intros W G H. apply In_boundary in H. destruct H as [[m [Hm Hp]] [S N]].
-  apply (not_missing_vis U fg vis r b W G); [|exact S|exact N].
+  intros W H. apply In_boundary in H. destruct H as [[m [Hm Hp]] [S N]].
+  apply (not_missing_vis U fg vis r b W); [|exact S|exact N].
   apply reach_trans with m.
   - apply reach_step with b; [exact Hp | apply reach_refl].
   - apply (missing_not_vis U fg vis r m W Hm).
@@ -281,23 +264,22 @@ Qed.
 
 Theorem fetch_complete U c F T fg r n T' : wf_dag (ug U) = true ->
   fetch U c F T fg r = (FOk, n, T') ->
-  fg = true \/ closedb U (vis_of F T) = true ->
   (forall a, reach (ug U) a r -> srcp U a = true -> In a (vis_of F T')) /\
   (closedb U (vis_of F T) = true -> closedb U (vis_of F T') = true).
 Proof.
-  intros W H G.
+  intros W H.
   destruct (fetch_cases U c F T fg r FOk n T' H) as [[N _]|[[_ [E [_ D]]]|[_ [S [_ [E _]]]]]]; [congruence| |]; subst T'.
   - split; [|tauto]. intros a R Sa. destruct D as [[Sr _]|[Sr EM]].
     + apply srcp_ge in Sr. pose proof (reach_ghost _ _ _ Sr R) as Ea. subst a. apply srcp_ge in Sr. congruence.
-    + apply (not_missing_vis U fg _ r a W G R Sa). rewrite EM. intros [].
+    + apply (not_missing_vis U fg _ r a W R Sa). rewrite EM. intros [].
   - set (M := missing U fg (vis_of F T) r). split.
     + intros a R Sa. apply In_vis_insert. destruct (memb a M) eqn:E.
       * left. apply memb_In. exact E.
-      * right. apply (not_missing_vis U fg _ r a W G R Sa). apply memb_false. exact E.
+      * right. apply (not_missing_vis U fg _ r a W R Sa). apply memb_false. exact E.
     + intros C. apply closedb_spec. intros x p Hx Sx Hp Sp. apply In_vis_insert.
       apply In_vis_insert in Hx. destruct Hx as [Hx|Hx].
       * destruct (memb p M) eqn:E; [left; apply memb_In; exact E|]. right.
-        apply (not_missing_vis U fg _ r p W (or_intror C)); [|exact Sp|apply memb_false; exact E].
+        apply (not_missing_vis U fg _ r p W); [|exact Sp|apply memb_false; exact E].
         apply reach_trans with x; [apply reach_step with p; [exact Hp|apply reach_refl]|].
         apply (missing_not_vis U fg _ r x W Hx).
       * right. rewrite closedb_spec in C. apply (C x p); assumption.
@@ -311,36 +293,15 @@ Theorem fetch_idempotent U c F T fg r n T' : wf_dag (ug U) = true ->
   missing U fg (vis_of F T') r = [] /\ fetch U c F T' fg r = (FOk, 0, T').
 Proof.
   intros W H.
-  assert (EM : srcp U r = true -> missing U fg (vis_of F T') r = []).
-  { intros S.
-    destruct (fetch_cases U c F T fg r FOk n T' H) as [[N _]|[[_ [E [_ D]]]|[_ [_ [_ [E _]]]]]]; [congruence| |]; subst T'.
-    - destruct D as [[Sr _]|[_ EM]]; [congruence | exact EM].
-    - set (M := missing U fg (vis_of F T) r).
-      assert (Hr : In r (vis_of F (insert U c T M))).
-      { apply In_vis_insert. destruct (memb r (vis_of F T)) eqn:E; [right; apply memb_In; exact E|left].
-        apply memb_false in E. unfold M, missing. destruct fg.
-        - apply (missing_full_spec U _ r r W). split; [apply reach_refl|]. split; [exact S|exact E].
-        - apply (missing_walk_spec U _ r r W). split; [apply reach_refl|]. split; [exact S|].
-          intros [h [R1 [_ [Hv R2]]]]. apply E.
-          rewrite (reach_antisym _ _ _ W R2 R1). exact Hv. }
-      unfold missing. destruct fg.
-      + unfold missing_full. apply filter_nil. intros x Hx. apply (In_anc U r x W) in Hx.
-        destruct (srcp U x) eqn:Sx; [|reflexivity]. cbn [andb]. apply negb_false_iff. apply memb_In.
-        apply In_vis_insert. destruct (memb x M) eqn:E; [left; apply memb_In; exact E|]. right.
-        apply (not_missing_vis U true _ r x W (or_introl eq_refl) Hx Sx). apply memb_false. exact E.
-      + unfold missing_walk. apply filter_nil. intros x Hx. apply (In_anc U r x W) in Hx.
-        destruct (srcp U x) eqn:Sx; [|reflexivity]. cbn [andb]. apply negb_false_iff. apply memb_In.
-        apply (ancestors_spec _ _ x W). exists r. split; [|exact Hx].
-        apply (In_haves U _ r r W). split; [apply reach_refl|]. split; [exact S|exact Hr]. }
+  assert (EM : missing U fg (vis_of F T') r = []).
+  { apply (missing_nil U fg _ r W). apply (fetch_complete U c F T fg r n T' W H). }
+  split; [exact EM|].
   destruct (srcp U r) eqn:S.
-  - split; [apply EM; reflexivity|]. unfold fetch, transfer. rewrite S. cbn [negb andb]. rewrite (EM eq_refl). reflexivity.
+  - unfold fetch, transfer. rewrite S. cbn [negb andb]. rewrite EM. reflexivity.
   - destruct (fetch_cases U c F T fg r FOk n T' H) as [[N _]|[[_ [E [_ D]]]|[_ [S' _]]]]; [congruence| |congruence]; subst T'.
     destruct D as [[_ [Ef Hv]]|[S' _]]; [|congruence]. subst fg.
-    assert (E0 : missing U false (vis_of F T) r = []).
-    { unfold missing, missing_walk. apply filter_nil. intros x Hx. apply (In_anc U r x W) in Hx.
-      apply srcp_ge in S. pose proof (reach_ghost _ _ _ S Hx) as Ex. subst x. apply srcp_ge in S. rewrite S. reflexivity. }
-    split; [exact E0|]. unfold fetch, transfer. rewrite S. cbn [negb andb orb].
-    apply memb_In in Hv. rewrite Hv. cbn [negb]. rewrite E0. reflexivity.
+    unfold fetch, transfer. rewrite S. cbn [negb andb orb].
+    apply memb_In in Hv. rewrite Hv. cbn [negb]. rewrite EM. reflexivity.
 Qed.
 
 Lemma full_b_spec U R : full_b U R = true <-> full U R.
@@ -398,14 +359,13 @@ Qed.
    its inventory and every text it references *)
 Theorem fetch_keeps_full U c F T fg r out n T' : wf_univ U = true ->
   fetch U c F T fg r = (out, n, T') -> revs F = [] ->
-  fg = true \/ closedb U (revs T) = true ->
   full U T -> full U T'.
 Proof.
-  intros W H EF G HF.
+  intros W H EF HF.
   assert (Ev : vis_of F T = revs T) by (unfold vis_of; rewrite EF; apply app_nil_r).
   destruct (fetch_cases U c F T fg r out n T' H) as [[_ E]|[[_ [E _]]|[_ [_ [_ [E _]]]]]]; subst T'; try exact HF.
   rewrite Ev. apply insert_keeps_full; [exact W| |exact HF].
-  intros b Hb. apply (boundary_in_vis U fg (revs T) r b (wf_univ_dag U W) G Hb).
+  intros b Hb. apply (boundary_in_vis U fg (revs T) r b (wf_univ_dag U W) Hb).
 Qed.
 
 (* ---- C08 ---------------------------------------------------------------------- *)
@@ -444,7 +404,7 @@ Proof.
   destruct (fetch_cases U c F T fg r out n T' H) as [[_ E]|[[_ [E _]]|[_ [_ [_ [E _]]]]]]; subst T'; try exact HL.
   apply (insert_keeps_complete U c T _ (vis_of F T) W X C); [| |exact HL].
   - intros m Hm. apply (missing_not_vis U fg _ r m Wd Hm).
-  - intros b Hb. apply (boundary_in_vis U fg _ r b Wd (or_intror C) Hb).
+  - intros b Hb. apply (boundary_in_vis U fg _ r b Wd Hb).
 Qed.
 
 Lemma commit_unfillable_nil F T ps : commit_unfillable F T ps = [] ->
@@ -532,7 +492,7 @@ Theorem fetch_tip_readable U c F T fg r n T' : wf_univ U = true ->
 Proof.
   intros W H X C HL HF Sr. pose proof (wf_univ_dag U W) as Wd.
   pose proof (fetch_keeps_complete U c F T fg r FOk n T' W H X C HL) as HL'.
-  destruct (fetch_complete U c F T fg r n T' Wd H (or_intror C)) as [Hall HC]. specialize (HC C).
+  destruct (fetch_complete U c F T fg r n T' Wd H) as [Hall HC]. specialize (HC C).
   assert (All : forall x, In x (revs T') -> srcp U x = true -> readable U F T' x)
     by (apply complete_readable; assumption).
   split; [|exact All].
@@ -550,10 +510,11 @@ Proof.
   intros r Hr _. split; [exact Hr|]. intros t Ht. cbn [seed texts]. apply In_inv_texts. exists r. tauto.
 Qed.
 
-(* ---- refutation: find_ghosts=False into a target holding a ghost the source can fill ---- *)
+(* ---- regression witness: find_ghosts=False into a target holding a ghost the source can fill ---- *)
 (* r2 (in the target) has the parent r1 the target lacks; the source has r1 and r4 = child of r1;
-   fetching r5 = merge(r3, r4) walks r5, r3, r4, r2, r1, r0: r1 is an ancestor of r2, which the target
-   has, so it is not requested; r4 arrives without the texts it shares with r1.
+   fetching r5 = merge(r3, r4).  BEFORE /repo be5f5d4 the walk excluded r1 (an ancestor of r2, which
+   the target has), r4 arrived without the texts it shares with r1 [old_walk_unclosed_refuted];
+   the repaired search requests r1 and the result is complete [walk_unclosed_now_complete].
    (inventories as read from the real repositories of harness/props/c03.py corpus case 0) *)
 Definition wit_U : univ := Univ
   [[]; []; [0; 1]; [2]; [1]; [3; 4]]
@@ -566,18 +527,93 @@ Definition wit_U : univ := Univ
 Definition wit_T : repo := seed wit_U [0; 2].
 Definition wit_c : cfg := Cfg true false false false.
 
-Theorem fetch_walk_unclosed_refuted :
-  exists n T', wf_univ wit_U = true /\ full wit_U wit_T /\
-    fetch wit_U wit_c empty_repo wit_T false 5 = (FOk, n, T') /\
-    (reach (ug wit_U) 1 5 /\ srcp wit_U 1 = true /\ ~ In 1 (vis_of empty_repo T')) /\
-    ~ full wit_U T'.
+Theorem old_walk_unclosed_refuted :
+  let T' := insert wit_U wit_c wit_T (missing_walk_old wit_U (revs wit_T) 5) in
+  wf_univ wit_U = true /\ full wit_U wit_T /\
+  (reach (ug wit_U) 1 5 /\ srcp wit_U 1 = true /\ ~ In 1 (revs T')) /\
+  ~ full wit_U T'.
 Proof.
-  eexists. eexists. split; [vm_compute; reflexivity|]. split; [apply full_seed|].
-  split; [vm_compute; reflexivity|]. split.
+  cbv zeta. split; [vm_compute; reflexivity|]. split; [apply full_seed|]. split.
   - split; [|split; [reflexivity|]].
     + apply (In_anc wit_U 5 1); vm_compute; [reflexivity|]. tauto.
     + vm_compute. intuition discriminate.
   - intros Hf. apply full_b_spec in Hf. vm_compute in Hf. discriminate.
+Qed.
+
+Theorem walk_unclosed_now_complete :
+  exists T', fetch wit_U wit_c empty_repo wit_T false 5 = (FOk, 4, T') /\
+             In 1 (revs T') /\ full wit_U T'.
+Proof.
+  eexists. split; [vm_compute; reflexivity|]. split.
+  - vm_compute. tauto.
+  - apply full_b_spec. vm_compute. reflexivity.
+Qed.
+
+(* ---- the walk for ANY batching ----------------------------------------------------------- *)
+(* [ravoid U vis r a]: a is reached from r in the source without passing through a revision the
+   target sees -- what a walk that checks the target after every single step requests. *)
+Inductive ravoid (U : univ) (vis : list revid) (r : revid) : revid -> Prop :=
+| ra_tip : srcp U r = true -> ~ In r vis -> ravoid U vis r r
+| ra_step c p : ravoid U vis r c -> In p (parents (ug U) c) -> srcp U p = true -> ~ In p vis ->
+    ravoid U vis r p.
+
+(* What the repaired walk guarantees whatever the batch size and the shape of the history: it
+   requests only ancestors of r the target does not see, at least the [ravoid] ones, and it stops
+   only at revisions the target sees (every parent of a requested revision is requested or seen). *)
+Definition walk_ok (U : univ) (vis : list revid) (r : revid) (M : list revid) : Prop :=
+  (forall a, In a M -> reach (ug U) a r /\ srcp U a = true /\ ~ In a vis) /\
+  (forall a, ravoid U vis r a -> In a M) /\
+  (forall b, In b (boundary U M) -> In b vis).
+
+Lemma ravoid_missing U vis r a : ravoid U vis r a -> reach (ug U) a r /\ srcp U a = true /\ ~ In a vis.
+Proof.
+  intros H. induction H as [S N | c p Hc [Rc _] Hp Sp Np].
+  - split; [apply reach_refl | tauto].
+  - split; [|tauto]. apply reach_trans with c; [|exact Rc]. apply reach_step with p; [exact Hp | apply reach_refl].
+Qed.
+
+(* the modelled (single batch) walk is one of them *)
+Theorem walk_ok_model U vis r : wf_dag (ug U) = true -> walk_ok U vis r (missing_walk U vis r).
+Proof.
+  intros W. split; [|split].
+  - intros a Ha. apply (missing_walk_spec U vis r a W). exact Ha.
+  - intros a Ha. apply (missing_walk_spec U vis r a W). apply ravoid_missing. exact Ha.
+  - intros b Hb. apply (boundary_in_vis U false vis r b W). exact Hb.
+Qed.
+
+(* on a target without fillable ghosts every admissible walk requests exactly the missing ancestors *)
+Lemma closed_ravoid U vis r : closedb U vis = true -> forall a x, reach (ug U) a x ->
+  ravoid U vis r x -> srcp U a = true -> ~ In a vis -> ravoid U vis r a.
+Proof.
+  intros C a x R. induction R as [x | a p x Hp Rap IH]; intros Hx Sa Na; [exact Hx|].
+  apply IH; [|exact Sa|exact Na].
+  assert (Sp : srcp U p = true).
+  { destruct (srcp U p) eqn:Sp; [reflexivity|]. apply srcp_ge in Sp.
+    pose proof (reach_ghost _ _ _ Sp Rap) as E. subst a. apply srcp_ge in Sp. congruence. }
+  apply ra_step with x; [exact Hx | exact Hp | exact Sp|].
+  intros Hv. apply Na. apply (closed_reach U vis C a p Rap Hv Sa).
+Qed.
+
+Theorem walk_ok_closed U vis r M a : wf_dag (ug U) = true -> closedb U vis = true ->
+  srcp U r = true -> walk_ok U vis r M -> (In a M <-> In a (missing_full U vis r)).
+Proof.
+  intros W C Sr [H1 [H2 _]]. rewrite (missing_full_spec U vis r a W). split; [apply H1|].
+  intros [R [Sa Na]]. apply H2.
+  apply (closed_ravoid U vis r C a r R); [|exact Sa|exact Na].
+  apply ra_tip; [exact Sr|]. intros Hv. apply Na. apply (closed_reach U vis C a r R Hv Sa).
+Qed.
+
+(* whatever the batching, the copied revisions arrive whole and the stacking invariant is kept *)
+Theorem walk_ok_keeps_full U c T r M : wf_univ U = true ->
+  walk_ok U (revs T) r M -> full U T -> full U (insert U c T M).
+Proof. intros W [_ [_ H3]] HF. apply insert_keeps_full; assumption. Qed.
+
+Theorem walk_ok_keeps_complete U c F T r M : wf_univ U = true -> ext c = true ->
+  closedb U (vis_of F T) = true -> walk_ok U (vis_of F T) r M ->
+  local_complete U T -> local_complete U (insert U c T M).
+Proof.
+  intros W X C [H1 [_ H3]] HL. apply (insert_keeps_complete U c T M (vis_of F T) W X C); [|exact H3|exact HL].
+  intros m Hm. apply (H1 m Hm).
 Qed.
 
 (* ---- fetch of everything (no revision given) ----------------------------------------- *)
